@@ -932,6 +932,18 @@ def gen_encconst(repo):
     else:
         raise ExtractError('ToBitStream for Streaminfo: bits-per-sample field changed shape')
     out.append(f'/-- can `ToBitStream for Streaminfo` write a 1-bit depth (false = it unwraps `checked_sub(1)` of a signed bit count)? -/\ndef metaDepthOneWritable : Bool := {d1}\n')
+    # parallel sites (C18)
+    raw = strip_comments(open(os.path.join(repo, 'src/encode.rs')).read())
+    bad = [t for t in ['Mutex', 'RwLock', 'Atomic', 'static mut', 'thread_local', 'UnsafeCell', 'RefCell', 'unsafe ', 'Cell<', 'OnceLock', 'OnceCell', 'lazy_static', 'Condvar', 'mpsc'] if t in raw]
+    out.append('/-- encode.rs holds no interior or global shared mutable state (Mutex, atomics, RefCell, static mut, unsafe, ...): the parallel closures can only touch what they borrow, and the borrow checker keeps `&mut` borrows disjoint -/\n'
+               f'def encNoSharedMutableState : Bool := {"true" if not bad else "false"}\n')
+    need(r'#\[cfg\(feature = "rayon"\)\] use rayon::join;', 'rayon::join import')
+    need(r'#\[cfg\(feature = "rayon"\)\] fn vec_map<T, U, F>\(src: Vec<T>, f: F\) -> Vec<U> where T: Send, U: Send, F: Fn\(T\) -> U \+ Send \+ Sync, \{ use rayon::iter::\{IntoParallelIterator, ParallelIterator\}; src\.into_par_iter\(\)\.map\(f\)\.collect\(\) \}', 'parallel vec_map')
+    need(r'fn try_join<A, B, RA, RB, E>\(oper_a: A, oper_b: B\) -> Result<\(RA, RB\), E> where .*? \{ let \(a, b\) = join\(oper_a, oper_b\); Ok\(\(a\?, b\?\)\) \}', 'try_join')
+    njoin = len(re.findall(r'(?<![_a-z])join\(', n))
+    ntry = len(re.findall(r'try_join\(', n))
+    nvm = len(re.findall(r'vec_map\(', n))
+    out.append(f'/-- call sites of `join` (one of them inside `try_join`), of `try_join` and of `vec_map` in encode.rs -/\ndef encParJoinSites : Nat := {njoin}\ndef encParTryJoinSites : Nat := {ntry}\ndef encParVecMapSites : Nat := {nvm}\n')
     out.append('end Flac.Gen')
     return '\n'.join(out) + '\n'
 
